@@ -127,7 +127,11 @@ def check_case(sink, c, o, seed, idx):  # noqa: C901
         ]
         for name, fn, first, inplace in variants:
             rec = Recorder()
-            res = fn(rec, c.tree, *rests, **kw)
+            try:
+                res = fn(rec, c.tree, *rests, **kw)
+            except Exception as e:  # noqa: BLE001
+                sink.violation(f'{name}/raises/{type(e).__name__}', f'{name} over a tree and rests that are suffixes of it returns a tree', ident, repr(e)[:300])
+                continue
             verify_calls(name, rec, first)
             if inplace:
                 sink.check(res is c.tree, f'{name}/returns-original', f'{name} returns the original tree object', ident)
